@@ -92,7 +92,12 @@ def gen_fault(r, kind, uid):
         return {'op': 'raw', 'name': 'location', 'args': ['%s = 1\n' % uid, None, 'zqmain.py'], 'fault': kind}
     if kind == 'unserialisable':
         body = r.choice(('return {1, 2, %r}' % uid, 'return object()', 'return [1, (2, {3})]', 'return 2 ** 70',
-                         'return {"k": print}'))
+                         'return {"k": print}',
+                         # results the packer rejects for other reasons than an unsupported type
+                         'return %r + chr(0xd800)' % uid, 'a = [%r]\na.append(a)\nreturn a' % uid,
+                         'return [%r * 100, {"k": [1, 2, object()]}]' % uid,
+                         # a failure whose own message cannot be serialised
+                         'raise ValueError(chr(0xdc00) + %r)' % uid))
         return {'op': 'eval', 'body': body, 'expect': None, 'calc': True, 'fault': kind}
     if kind == 'eval_raises':
         body = r.choice(('raise ValueError(%r)' % ('boom ' + uid), 'return 1 / 0', 'return undefined_' + uid,
